@@ -178,7 +178,7 @@ def aoPred : RMPred where
   throw := throw_appendOnly
   outOfFuel := outOfFuel_appendOnly
   write := write_appendOnly
-  mapErr := mapErr_appendOnly
+  mapErr := fun x f _ hx => mapErr_appendOnly x f hx
   captured := fun x _ => captured_appendOnly x
   cleanup := cleanup_appendOnly
   navigate := navigate_appendOnly
@@ -196,5 +196,391 @@ theorem render_keeps_prefix (reg : Registry) (root : Json) (fuel : Nat) (t : Tmp
     ∃ more, o'.segs = more ++ out.segs ∧ o'.failAt = out.failAt := by
   obtain ⟨more, h1, _, h3⟩ := (render_appendOnly reg root fuel t).ext rc out o' h
   exact ⟨more, h1, h3⟩
+
+end Hbs.C19
+
+/-! ### a writer that fails on its k-th call: `FaultSim x` relates two runs of the SAME computation from
+    the same state, one against a writer that never fails and one against the same writer with a fault
+    planted at call `k`.  It is closed under every combinator of the renderer, hence (generic induction
+    principle) holds of every render function. -/
+namespace Hbs.C19
+open Hbs RM
+
+/-- the same writer with a fault planted at call `k` -/
+def faulty (o : Out) (k : Nat) : Out := { o with failAt := some k }
+
+@[simp] theorem faulty_count (o : Out) (k : Nat) : (faulty o k).count = o.count := rfl
+@[simp] theorem faulty_segs (o : Out) (k : Nat) : (faulty o k).segs = o.segs := rfl
+@[simp] theorem faulty_failAt (o : Out) (k : Nat) : (faulty o k).failAt = some k := rfl
+
+/-- the faulty run reached the fault: it ended with an error whose reason is the IO error, after exactly
+    `k` accepted calls, and what the writer accepted are the OLDEST segments of the fault-free run's `o'` -/
+def Hit {α : Type} (k : Nat) (o' : Out) (r : RRes α) : Prop :=
+  ∃ e oF, r = .err e oF ∧ e.reason = .ioError ∧ oF.count = k ∧ oF.failAt = some k ∧ ∃ m, o'.segs = m ++ oF.segs
+
+/-- the faulty run stayed in step with the fault-free one (fault not reached) or hit the fault -/
+structure FaultSim {α : Type} (x : RM α) : Prop where
+  ao : AppendOnly x
+  ok : ∀ k rc o a rc' o', o.failAt = none → o.count ≤ k → x rc o = .ok a rc' o' →
+    (o'.count ≤ k ∧ x rc (faulty o k) = .ok a rc' (faulty o' k)) ∨ (k < o'.count ∧ Hit k o' (x rc (faulty o k)))
+  err : ∀ k rc o e o', o.failAt = none → o.count ≤ k → x rc o = .err e o' →
+    (o'.count ≤ k ∧ x rc (faulty o k) = .err e (faulty o' k)) ∨ (k < o'.count ∧ Hit k o' (x rc (faulty o k)))
+
+/-- a computation that neither reads nor changes the writer -/
+theorem faultSim_of_outIndep {α : Type} (x : RM α)
+    (h : ∀ rc : RC, (∃ a rc', ∀ o2, x rc o2 = .ok a rc' o2) ∨ (∃ e, ∀ o2, x rc o2 = .err e o2) ∨
+      (∃ s, ∀ o2, x rc o2 = .panic s) ∨ (∀ o2, x rc o2 = .fuel)) : FaultSim x := by
+  refine ⟨⟨?_⟩, ?_, ?_⟩
+  · intro rc out o' ho
+    rcases h rc with ⟨a, rc', h1⟩ | ⟨e, h1⟩ | ⟨s, h1⟩ | h1 <;> rw [h1] at ho <;> simp [outOf] at ho
+    all_goals subst ho; exact Extends.refl _
+  · intro k rc o a rc' o' _ hk hx
+    rcases h rc with ⟨a1, rc1, h1⟩ | ⟨e, h1⟩ | ⟨s, h1⟩ | h1 <;> rw [h1] at hx <;> simp at hx
+    obtain ⟨rfl, rfl, rfl⟩ := hx
+    exact Or.inl ⟨hk, h1 _⟩
+  · intro k rc o e o' _ hk hx
+    rcases h rc with ⟨a1, rc1, h1⟩ | ⟨e1, h1⟩ | ⟨s, h1⟩ | h1 <;> rw [h1] at hx <;> simp at hx
+    obtain ⟨rfl, rfl⟩ := hx
+    exact Or.inl ⟨hk, h1 _⟩
+
+theorem ret_faultSim {α : Type} (a : α) : FaultSim (RM.ret a) :=
+  faultSim_of_outIndep _ (fun rc => Or.inl ⟨a, rc, fun _ => rfl⟩)
+theorem get_faultSim : FaultSim RM.get :=
+  faultSim_of_outIndep _ (fun rc => Or.inl ⟨rc, rc, fun _ => rfl⟩)
+theorem modify_faultSim (f : RC → RC) : FaultSim (RM.modify f) :=
+  faultSim_of_outIndep _ (fun rc => Or.inl ⟨(), f rc, fun _ => rfl⟩)
+theorem throw_faultSim {α : Type} (e : RenderError) : FaultSim (RM.throw e : RM α) :=
+  faultSim_of_outIndep _ (fun _ => Or.inr (Or.inl ⟨e, fun _ => rfl⟩))
+theorem throwR_faultSim {α : Type} (r : RReason) : FaultSim (RM.throwR r : RM α) := throw_faultSim _
+theorem panic_faultSim {α : Type} (s : String) : FaultSim (RM.panic s : RM α) :=
+  faultSim_of_outIndep _ (fun _ => Or.inr (Or.inr (Or.inl ⟨s, fun _ => rfl⟩)))
+theorem outOfFuel_faultSim {α : Type} : FaultSim (RM.outOfFuel : RM α) :=
+  faultSim_of_outIndep _ (fun _ => Or.inr (Or.inr (Or.inr (fun _ => rfl))))
+
+/-- THE step: one write call.  In step while the call index is below `k`; the `k`-th call fails with the
+    IO error and hands nothing over. -/
+theorem write_faultSim (s : Str) : FaultSim (RM.write s) := by
+  refine ⟨write_appendOnly s, ?_, ?_⟩
+  · intro k rc o a rc' o' hf hk hx
+    by_cases hs : s = []
+    · subst hs
+      simp at hx
+      obtain ⟨rfl, rfl⟩ := hx
+      exact Or.inl ⟨hk, by simp⟩
+    · have hne : o.failAt ≠ some o.count := by rw [hf]; simp
+      rw [write_ok s rc o hs hne] at hx
+      simp at hx
+      obtain ⟨rfl, rfl⟩ := hx
+      by_cases hkk : o.count = k
+      · right
+        refine ⟨by simp; omega, ?_⟩
+        refine ⟨.of .ioError, faulty o k, ?_, rfl, by simp [hkk], rfl, [s], by simp⟩
+        exact write_fail s rc (faulty o k) hs (by simp [hkk])
+      · left
+        refine ⟨by simp; omega, ?_⟩
+        rw [write_ok s rc (faulty o k) hs (by simp; omega)]
+        rfl
+  · intro k rc o e o' hf hk hx
+    by_cases hs : s = []
+    · subst hs; simp at hx
+    · have hne : o.failAt ≠ some o.count := by rw [hf]; simp
+      rw [write_ok s rc o hs hne] at hx
+      simp at hx
+
+theorem hit_extend {α β : Type} {k : Nat} {o1 o2 : Out} {r : RRes α} (f : α → RM β)
+    (h : Hit k o1 r) (hext : Extends o1 o2) :
+    Hit k o2 (match r with
+      | .ok a rc' out' => f a rc' out'
+      | .err e o => .err e o
+      | .panic s => .panic s
+      | .fuel => .fuel) := by
+  obtain ⟨e, oF, rfl, he, hc, hfa, m, hm⟩ := h
+  obtain ⟨more, hs, _, _⟩ := hext
+  exact ⟨e, oF, rfl, he, hc, hfa, more ++ m, by rw [hs, hm]; simp⟩
+
+theorem bnd_faultSim {α β : Type} (x : RM α) (f : α → RM β) (hx : FaultSim x) (hf : ∀ a, FaultSim (f a)) :
+    FaultSim (RM.bnd x f) := by
+  refine ⟨bnd_appendOnly x f hx.ao (fun a => (hf a).ao), ?_, ?_⟩
+  · intro k rc o b rc2 o2 hfa hk hb
+    rw [RM.bnd_apply] at hb
+    cases hxr : x rc o with
+    | ok a rc1 o1 =>
+      rw [hxr] at hb
+      have hext1 := hx.ao.ext rc o o1 (by simp [hxr, outOf])
+      have hext2 := (hf a).ao.ext rc1 o1 o2 (by simp [hb, outOf])
+      rcases hx.ok k rc o a rc1 o1 hfa hk hxr with ⟨hk1, hsync⟩ | ⟨hk1, hhit⟩
+      · have hfa1 : o1.failAt = none := by obtain ⟨_, _, _, h3⟩ := hext1; rw [h3, hfa]
+        rcases (hf a).ok k rc1 o1 b rc2 o2 hfa1 hk1 hb with ⟨hk2, hs2⟩ | ⟨hk2, hh2⟩
+        · left; refine ⟨hk2, ?_⟩; rw [RM.bnd_apply, hsync]; exact hs2
+        · right; refine ⟨hk2, ?_⟩; rw [RM.bnd_apply, hsync]; exact hh2
+      · right
+        obtain ⟨more, _, hc, _⟩ := id hext2
+        refine ⟨by omega, ?_⟩
+        rw [RM.bnd_apply]
+        exact hit_extend f hhit hext2
+    | err e o1 => rw [hxr] at hb; simp at hb
+    | panic s => rw [hxr] at hb; simp at hb
+    | fuel => rw [hxr] at hb; simp at hb
+  · intro k rc o e2 o2 hfa hk hb
+    rw [RM.bnd_apply] at hb
+    cases hxr : x rc o with
+    | ok a rc1 o1 =>
+      rw [hxr] at hb
+      have hext1 := hx.ao.ext rc o o1 (by simp [hxr, outOf])
+      have hext2 := (hf a).ao.ext rc1 o1 o2 (by simp [hb, outOf])
+      rcases hx.ok k rc o a rc1 o1 hfa hk hxr with ⟨hk1, hsync⟩ | ⟨hk1, hhit⟩
+      · have hfa1 : o1.failAt = none := by obtain ⟨_, _, _, h3⟩ := hext1; rw [h3, hfa]
+        rcases (hf a).err k rc1 o1 e2 o2 hfa1 hk1 hb with ⟨hk2, hs2⟩ | ⟨hk2, hh2⟩
+        · left; refine ⟨hk2, ?_⟩; rw [RM.bnd_apply, hsync]; exact hs2
+        · right; refine ⟨hk2, ?_⟩; rw [RM.bnd_apply, hsync]; exact hh2
+      · right
+        obtain ⟨more, _, hc, _⟩ := id hext2
+        refine ⟨by omega, ?_⟩
+        rw [RM.bnd_apply]
+        exact hit_extend f hhit hext2
+    | err e o1 =>
+      rw [hxr] at hb
+      simp at hb
+      obtain ⟨rfl, rfl⟩ := hb
+      rcases hx.err k rc o e o1 hfa hk hxr with ⟨hk1, hsync⟩ | ⟨hk1, hhit⟩
+      · left; refine ⟨hk1, ?_⟩; rw [RM.bnd_apply, hsync]
+      · right; refine ⟨hk1, ?_⟩; rw [RM.bnd_apply]; exact hit_extend f hhit (Extends.refl _)
+    | panic s => rw [hxr] at hb; simp at hb
+    | fuel => rw [hxr] at hb; simp at hb
+
+/-- `map_err` with a reason-preserving function: the IO error stays the IO error -/
+theorem mapErr_faultSim {α : Type} (x : RM α) (g : RenderError → RenderError)
+    (hg : ∀ e, (g e).reason = e.reason) (hx : FaultSim x) : FaultSim (RM.mapErr x g) := by
+  refine ⟨mapErr_appendOnly x g hx.ao, ?_, ?_⟩
+  · intro k rc o a rc' o' hfa hk h
+    unfold RM.mapErr at h
+    cases hxr : x rc o with
+    | ok a1 rc1 o1 =>
+      rw [hxr] at h; simp at h; obtain ⟨rfl, rfl, rfl⟩ := h
+      rcases hx.ok k rc o a1 rc1 o1 hfa hk hxr with ⟨hk1, hs⟩ | ⟨hk1, e, oF, hr, he, hrest⟩
+      · left; refine ⟨hk1, ?_⟩; unfold RM.mapErr; rw [hs]
+      · right; refine ⟨hk1, g e, oF, ?_, by rw [hg, he], hrest⟩; unfold RM.mapErr; rw [hr]
+    | err e o1 => rw [hxr] at h; simp at h
+    | panic s => rw [hxr] at h; simp at h
+    | fuel => rw [hxr] at h; simp at h
+  · intro k rc o e' o' hfa hk h
+    unfold RM.mapErr at h
+    cases hxr : x rc o with
+    | ok a1 rc1 o1 => rw [hxr] at h; simp at h
+    | err e o1 =>
+      rw [hxr] at h; simp at h; obtain ⟨rfl, rfl⟩ := h
+      rcases hx.err k rc o e o1 hfa hk hxr with ⟨hk1, hs⟩ | ⟨hk1, e2, oF, hr, he, hrest⟩
+      · left; refine ⟨hk1, ?_⟩; unfold RM.mapErr; rw [hs]
+      · right; refine ⟨hk1, g e2, oF, ?_, by rw [hg, he], hrest⟩; unfold RM.mapErr; rw [hr]
+    | panic s => rw [hxr] at h; simp at h
+    | fuel => rw [hxr] at h; simp at h
+
+/-- a subexpression runs against a private writer without a fault: both runs do the same -/
+theorem captured_faultSim {α : Type} (x : RM α) : FaultSim (RM.captured x) := by
+  refine ⟨captured_appendOnly x, ?_, ?_⟩
+  · intro k rc o a rc' o' _ hk h
+    unfold RM.captured at h
+    cases hxr : x rc {} with
+    | ok a1 rc1 o1 =>
+      rw [hxr] at h; simp at h; obtain ⟨rfl, rfl, rfl⟩ := h
+      left; refine ⟨hk, ?_⟩; unfold RM.captured; rw [hxr]
+    | err e o1 => rw [hxr] at h; simp at h
+    | panic s => rw [hxr] at h; simp at h
+    | fuel => rw [hxr] at h; simp at h
+  · intro k rc o e' o' _ hk h
+    unfold RM.captured at h
+    cases hxr : x rc {} with
+    | ok a1 rc1 o1 => rw [hxr] at h; simp at h
+    | err e o1 =>
+      rw [hxr] at h; simp at h; obtain ⟨rfl, rfl⟩ := h
+      left; refine ⟨hk, ?_⟩; unfold RM.captured; rw [hxr]
+    | panic s => rw [hxr] at h; simp at h
+    | fuel => rw [hxr] at h; simp at h
+
+theorem cleanup_faultSim (x : RM Unit) (c : RC → RC) (hx : FaultSim x) : FaultSim (RM.withCleanup x c) := by
+  refine ⟨cleanup_appendOnly x c hx.ao, ?_, ?_⟩
+  · intro k rc o a rc' o' hfa hk h
+    unfold RM.withCleanup at h
+    cases hxr : x rc o with
+    | ok a1 rc1 o1 =>
+      rw [hxr] at h; simp at h; obtain ⟨rfl, rfl⟩ := h
+      rcases hx.ok k rc o () rc1 o1 hfa hk hxr with ⟨hk1, hs⟩ | ⟨hk1, e, oF, hr, hrest⟩
+      · left; refine ⟨hk1, ?_⟩; unfold RM.withCleanup; rw [hs]
+      · right; refine ⟨hk1, e, oF, ?_, hrest⟩; unfold RM.withCleanup; rw [hr]
+    | err e o1 => rw [hxr] at h; simp at h
+    | panic s => rw [hxr] at h; simp at h
+    | fuel => rw [hxr] at h; simp at h
+  · intro k rc o e' o' hfa hk h
+    unfold RM.withCleanup at h
+    cases hxr : x rc o with
+    | ok a1 rc1 o1 => rw [hxr] at h; simp at h
+    | err e o1 =>
+      rw [hxr] at h; simp at h; obtain ⟨rfl, rfl⟩ := h
+      rcases hx.err k rc o e o1 hfa hk hxr with ⟨hk1, hs⟩ | ⟨hk1, e2, oF, hr, hrest⟩
+      · left; refine ⟨hk1, ?_⟩; unfold RM.withCleanup; rw [hs]
+      · right; refine ⟨hk1, e2, oF, ?_, hrest⟩; unfold RM.withCleanup; rw [hr]
+    | panic s => rw [hxr] at h; simp at h
+    | fuel => rw [hxr] at h; simp at h
+
+theorem navigate_faultSim (root : Json) (segs : List PathSeg) (blocks : List Block) :
+    FaultSim (navigate root segs blocks) := by
+  unfold navigate
+  simp only [RM.pure_def]
+  repeat' with_reducible first
+    | exact ret_faultSim _
+    | exact throw_faultSim _
+    | exact throwR_faultSim _
+    | exact panic_faultSim _
+    | split
+
+/-- the fault simulation as a closed predicate -/
+def fsPred : RMPred where
+  P := fun x => FaultSim x
+  ret := ret_faultSim
+  bnd := bnd_faultSim
+  get := get_faultSim
+  modify := modify_faultSim
+  throw := throw_faultSim
+  outOfFuel := outOfFuel_faultSim
+  write := write_faultSim
+  mapErr := mapErr_faultSim
+  captured := fun x _ => captured_faultSim x
+  cleanup := cleanup_faultSim
+  navigate := navigate_faultSim
+
+/-- EVERY render computation, run against a writer failing at call `k`, stays in step with the
+    fault-free run until the fault and then stops with the IO error -/
+theorem render_faultSim (reg : Registry) (root : Json) (fuel : Nat) (t : Tmpl) :
+    FaultSim (renderTemplate reg root fuel t) := (fsPred.all reg root fuel).renderTemplate t
+
+theorem text_prefix_of_segs {o' oF : Out} {m : List Str} (h : o'.segs = m ++ oF.segs) :
+    o'.text = oF.text ++ m.reverse.flatten := by
+  simp [Out.text, h]
+
+/-- **writer failing on its k-th call**, for ANY template, data, registry, state and fuel: if the
+    fault-free render succeeds after `n` write calls then
+    * for `k ≥ n` the faulty render succeeds too, with the same output and final state;
+    * for `k < n` it returns an error whose reason is the IO error (never Ok, never a panic), exactly
+      `k` calls were accepted (nothing further is written), and the accepted text is a prefix of the
+      fault-free output. -/
+theorem fail_at_k (reg : Registry) (root : Json) (fuel : Nat) (t : Tmpl) (rc rc' : RC) (o' : Out) (k : Nat)
+    (h : renderTemplate reg root fuel t rc {} = .ok () rc' o') :
+    (o'.count ≤ k ∧ renderTemplate reg root fuel t rc { failAt := some k } = .ok () rc' { o' with failAt := some k }) ∨
+    (k < o'.count ∧ ∃ e oF rest, renderTemplate reg root fuel t rc { failAt := some k } = .err e oF ∧
+      e.reason = .ioError ∧ oF.count = k ∧ o'.text = oF.text ++ rest) := by
+  rcases (render_faultSim reg root fuel t).ok k rc {} () rc' o' rfl (Nat.zero_le _) h with ⟨h1, h2⟩ | ⟨h1, e, oF, hr, he, hc, _, m, hm⟩
+  · exact Or.inl ⟨h1, h2⟩
+  · exact Or.inr ⟨h1, e, oF, _, hr, he, hc, text_prefix_of_segs hm⟩
+
+/-- the same when the fault-free render itself ends with a render error `e0` after `n` calls: for
+    `k ≥ n` the faulty run reports the same error after the same output, for `k < n` the IO error. -/
+theorem fail_at_k_of_error (reg : Registry) (root : Json) (fuel : Nat) (t : Tmpl) (rc : RC) (e0 : RenderError) (o' : Out) (k : Nat)
+    (h : renderTemplate reg root fuel t rc {} = .err e0 o') :
+    (o'.count ≤ k ∧ renderTemplate reg root fuel t rc { failAt := some k } = .err e0 { o' with failAt := some k }) ∨
+    (k < o'.count ∧ ∃ e oF rest, renderTemplate reg root fuel t rc { failAt := some k } = .err e oF ∧
+      e.reason = .ioError ∧ oF.count = k ∧ o'.text = oF.text ++ rest) := by
+  rcases (render_faultSim reg root fuel t).err k rc {} e0 o' rfl (Nat.zero_le _) h with ⟨h1, h2⟩ | ⟨h1, e, oF, hr, he, hc, _, m, hm⟩
+  · exact Or.inl ⟨h1, h2⟩
+  · exact Or.inr ⟨h1, e, oF, _, hr, he, hc, text_prefix_of_segs hm⟩
+
+/-- the number of write calls of a run from the empty writer is the number of segments: "exactly k calls
+    were accepted" means exactly the first k segments -/
+theorem count_is_segments (reg : Registry) (root : Json) (fuel : Nat) (t : Tmpl) (rc : RC) (fa : Option Nat) (o' : Out)
+    (h : outOf (renderTemplate reg root fuel t rc { failAt := fa }) = some o') : o'.count = o'.segs.length := by
+  obtain ⟨more, h1, h2, _⟩ := (render_appendOnly reg root fuel t).ext rc _ o' h
+  simp [h1, h2]
+
+/-- non-vacuity: a concrete template with two write calls; the hypotheses of `fail_at_k` are met and
+    both alternatives occur -/
+example : ∃ rc' o', renderTemplate Registry.new .null 10 (.mk none [.raw ['a'], .raw ['b']] [(1, 1), (1, 2)]) {} {} = .ok () rc' o' ∧ o'.count = 2 :=
+  ⟨_, _, rfl, rfl⟩
+
+end Hbs.C19
+
+/-! ### the same at the level of the public entry points (`render_to_write`, `render_template_to_write`
+    and their `_with_context` twins): template lookup, dev-mode reloading and compilation happen
+    before the first write and do not look at the writer. -/
+namespace Hbs.C19
+open Hbs RM
+
+theorem runRM_fail_at_k (x : RM Unit) (hx : FaultSim x) (rc : RC) (k : Nat) (text : Str)
+    (h : runRM x rc {} = .ok text) :
+    runRM x rc { failAt := some k } = .ok text ∨
+    ∃ e w rest, runRM x rc { failAt := some k } = .err e w ∧ e.reason = .ioError ∧ text = w ++ rest := by
+  unfold runRM at h ⊢
+  cases hr : x rc {} with
+  | ok a rc' o' =>
+    rw [hr] at h
+    simp only [Final.ok.injEq] at h
+    rcases hx.ok k rc {} a rc' o' rfl (Nat.zero_le _) hr with ⟨_, h2⟩ | ⟨_, e, oF, hr2, he, _, _, m, hm⟩
+    · left
+      have : faulty ({} : Out) k = { failAt := some k } := rfl
+      rw [this] at h2; rw [h2]
+      simp only [Final.ok.injEq]
+      rw [← h]; rfl
+    · right
+      have : faulty ({} : Out) k = { failAt := some k } := rfl
+      rw [this] at hr2; rw [hr2]
+      exact ⟨e, oF.text, m.reverse.flatten, rfl, he, by rw [← h]; exact text_prefix_of_segs hm⟩
+  | err e o' => rw [hr] at h; cases h
+  | panic s => rw [hr] at h; cases h
+  | fuel => rw [hr] at h; cases h
+
+theorem renderResolved_fail_at_k (r : Registry) (fs : FS) (name : Option Str) (t : Tmpl) (data : Json) (k : Nat) (text : Str)
+    (h : r.renderResolved fs name t data {} = .ok text) :
+    r.renderResolved fs name t data { failAt := some k } = .ok text ∨
+    ∃ e w rest, r.renderResolved fs name t data { failAt := some k } = .err e w ∧ e.reason = .ioError ∧ text = w ++ rest := by
+  unfold Registry.renderResolved at h ⊢
+  cases hd : r.dev with
+  | false =>
+    simp only [hd, Bool.not_false, ↓reduceIte] at h ⊢
+    exact runRM_fail_at_k _ (render_faultSim _ _ _ _) _ k text h
+  | true =>
+    simp only [hd, Bool.not_true, Bool.false_eq_true, ↓reduceIte] at h ⊢
+    cases hg : r.gatherDev fs (name.map (fun n => (n, t))) r.sources [] with
+    | error e =>
+      rw [hg] at h
+      cases e <;> simp at h
+    | ok dmt =>
+      rw [hg] at h
+      simp only [] at h ⊢
+      cases name with
+      | none =>
+        simp only [] at h ⊢
+        exact runRM_fail_at_k _ (render_faultSim _ _ _ _) _ k text h
+      | some n =>
+        simp only [] at h ⊢
+        cases ha : assocGet dmt n with
+        | none => rw [ha] at h; cases h
+        | some t' =>
+          rw [ha] at h
+          simp only [] at h ⊢
+          exact runRM_fail_at_k _ (render_faultSim _ _ _ _) _ k text h
+
+/-- **`render_to_write` with a writer failing on its k-th call** (`failAt = some k`), for any
+    registry, file system, template name and data: if the render into an unfailing writer returns
+    `text`, the faulty render returns `text` as well (fault not reached) or an error whose reason is
+    the IO error, having written a prefix of `text`. -/
+theorem render_to_write_fail_at_k (r : Registry) (fs : FS) (name : Str) (data : Json) (k : Nat) (text : Str)
+    (h : r.renderToWrite fs name data none = .ok text) :
+    r.renderToWrite fs name data (some k) = .ok text ∨
+    ∃ e w rest, r.renderToWrite fs name data (some k) = .err e w ∧ e.reason = .ioError ∧ text = w ++ rest := by
+  unfold Registry.renderToWrite Registry.renderToOutput at h ⊢
+  cases hl : r.getOrLoad fs name with
+  | ok t => rw [hl] at h; exact renderResolved_fail_at_k r fs (some name) t data k text h
+  | err e => rw [hl] at h; cases h
+  | panic s => rw [hl] at h; cases h
+  | fuel => rw [hl] at h; cases h
+
+theorem render_template_to_write_fail_at_k (r : Registry) (fs : FS) (src : Str) (data : Json) (k : Nat) (text : Str)
+    (h : r.renderTemplateToWrite fs src data none = .ok text) :
+    r.renderTemplateToWrite fs src data (some k) = .ok text ∨
+    ∃ e w rest, r.renderTemplateToWrite fs src data (some k) = .err e w ∧ e.reason = .ioError ∧ text = w ++ rest := by
+  unfold Registry.renderTemplateToWrite Registry.renderTemplateWithContextToWrite at h ⊢
+  cases hl : r.compileForRenderTemplate src with
+  | ok t => rw [hl] at h; exact renderResolved_fail_at_k r fs none t data k text h
+  | err e => rw [hl] at h; cases h
+  | panic s => rw [hl] at h; cases h
+  | fuel => rw [hl] at h; cases h
 
 end Hbs.C19
